@@ -819,7 +819,11 @@ Section Inv.
       let s1 := settle s in
       if p =? 0 then seek_start bs ofs nobad s1 else
       let s2 := set_pos s1 (Z.min p (fsize s1)) in
-      if pos s2 =? fsize s2 then eofk s2 else seek_mid bs nobad s2.
+      seek_fb bs ofs nobad eofk (if pos s2 =? fsize s2 then eofk s2 else seek_mid bs nobad s2) p.
+
+  (* a seek whose extension-block walk succeeded does not fall back *)
+  Lemma seek_fb_ok eofk t p : seek_fb bs ofs nobad eofk (true, t) p = (true, t).
+  Proof. reflexivity. Qed.
 
   Lemma seek_gen_unfold eofk s p :
     seek_gen bs ofs nobad eofk s p = if (pos s =? p) && negb (cur s =? 0) && negb (pind s =? bs) then (true, s) else seek_tail eofk s p.
@@ -874,7 +878,7 @@ Section Inv.
         assert (C2 : CB (set_pos s1 p) L E) by (split; [apply (base_frame s1); try reflexivity; assumption|split; [exact HL1|exact Hcl]]).
         destruct (seek_mid_ok (set_pos s1 p) L E C2 ltac:(change (pos (set_pos s1 p)) with p; change (fsize (set_pos s1 p)) with (fsize s1); lia) (b_cext _ _ _ B1))
           as (s' & Hsm & I' & P' & C' & D' & F' & W' & M' & N1 & N2 & N3).
-        exists s'. split; [exact Hsm|]. cbn in *. unfold seek_post. splits; try assumption; try congruence.
+        exists s'. split; [rewrite Hsm; apply seek_fb_ok|]. cbn in *. unfold seek_post. splits; try assumption; try congruence.
         apply (repr_clean s1 s' L E ct); assumption.
   Qed.
 
@@ -945,7 +949,8 @@ Section Inv.
         exists s'. split; [exact Hss|]. unfold seek_post. splits; try assumption; try congruence.
       + cbv zeta. rewrite Hf1. replace (Z.min p (fsize s)) with (fsize s) by lia.
         change (pos (set_pos s1 (fsize s))) with (fsize s). change (fsize (set_pos s1 (fsize s))) with (fsize s1). rewrite Hf1, Z.eqb_refl.
-        destruct (Z.eq_dec (fsize s) 0) as [Hz|Hz].
+        assert (G : exists s', seek_eof bs ofs nobad (set_pos s1 (fsize s)) = (true, s') /\ seek_post s s' L E ct (fsize s)).
+        { destruct (Z.eq_dec (fsize s) 0) as [Hz|Hz].
         * (* empty file *)
           unfold seek_eof. change (fsize (set_pos s1 (fsize s))) with (fsize s1). rewrite Hf1. destruct (Z.eqb_spec (fsize s) 0); [|contradiction].
           pose proof I1 as (B1 & HL1 & C1).
@@ -958,7 +963,8 @@ Section Inv.
           { apply (repr_frame s1); try reflexivity. exact R1. }
           exists s'. split; [exact Hss|]. unfold seek_post. cbn in *. splits; try assumption; try congruence.
         * rewrite <- Hf1. destruct (seek_eof_ok s1 L E ct I1 Hcl R1 ltac:(lia)) as (s' & Hse & (I' & R' & P' & F' & W' & M')).
-          exists s'. split; [exact Hse|]. unfold seek_post. splits; try assumption; try congruence.
+          exists s'. split; [exact Hse|]. unfold seek_post. splits; try assumption; try congruence. }
+        destruct G as (s' & Hse & Hpost). exists s'. split; [rewrite Hse; apply seek_fb_ok|exact Hpost].
   Qed.
 
   (* ---- adfFileWrite: the copy into the buffered block ---- *)
@@ -2121,7 +2127,7 @@ Section Inv.
             assert (C2 : CBl (set_pos t (new - 1)) L E).
             { split; [apply (base_frame t); try reflexivity; exact Bt|split; [exact (proj1 (proj2 Ct))|exact Hc]]. }
             destruct (seek_mid_l (set_pos t (new - 1)) L E C2 ltac:(change (pos (set_pos t (new - 1))) with (new - 1); change (fsize (set_pos t (new - 1))) with new; lia) (b_cext _ _ _ Bt)) as (s2 & Hsm & Hld & P2 & Pi2).
-            exists s2. split; [exact Hsm|]. cbn in Hld. fold k in Hld. split; [exact Hld|].
+            exists s2. split; [rewrite Hsm; apply seek_fb_ok|]. cbn in Hld. fold k in Hld. split; [exact Hld|].
             destruct Hld as (L1 & L2 & L3 & L4 & L5 & L6 & L7 & L8 & L9 & L10 & L11).
             assert (Hd10 : dk t (nthZ L k) = BData (cdata s2)) by exact L10.
             destruct (cbl_data t L E k Ct HkL) as (d & Hd & Hlen & Hnx). rewrite Hd in Hd10. injection Hd10 as <-. split; [exact Hlen|exact Hnx]. }
